@@ -3,6 +3,7 @@
 'cbc'      : cylp importable, CBC used
 'glpk'     : `import cylp` made to fail (sys.modules['cylp'] = None) -> the library's GLPK branch
 'cbc_fail' : cylp importable but solving with CBC raises cvxpy.SolverError -> the library's GLPK branch
+'cylp_broken' : cylp present but unloadable: `import cylp` raises a plain ImportError (meta-path finder) -> GLPK branch
 
 A spy on cvxpy.Problem.solve records which solver really ran.
 """
@@ -28,14 +29,33 @@ def backend(mode):
         used.append(str(solver))
         return orig(self, *a, **kw)
 
+    finder = None
+    stash = {}
     with _lock:
         try:
             if mode == "glpk":
                 sys.modules["cylp"] = None
+            elif mode == "cylp_broken":
+                # cylp is installed but cannot be loaded (e.g. a missing libCbc shared library): `import cylp` raises a
+                # plain ImportError, not ModuleNotFoundError
+                import importlib.abc
+
+                class _Broken(importlib.abc.MetaPathFinder):
+                    def find_spec(self, name, path=None, target=None):
+                        if name == "cylp" or name.startswith("cylp."):
+                            raise ImportError("libCbc.so.3: cannot open shared object file: No such file or directory (injected)")
+                        return None
+                for k in [k for k in sys.modules if k == "cylp" or k.startswith("cylp.")]:
+                    stash[k] = sys.modules.pop(k)
+                finder = _Broken()
+                sys.meta_path.insert(0, finder)
             cp.Problem.solve = spy
             yield used
         finally:
             cp.Problem.solve = orig
+            if finder is not None:
+                sys.meta_path.remove(finder)
+                sys.modules.update(stash)
             if mode == "glpk":
                 if saved == "absent":
                     sys.modules.pop("cylp", None)
@@ -44,4 +64,4 @@ def backend(mode):
 
 
 def expected_solvers(mode):
-    return {"cbc": ["CBC"], "glpk": ["GLPK_MI"], "cbc_fail": ["CBC!fail", "GLPK_MI"]}[mode]
+    return {"cbc": ["CBC"], "glpk": ["GLPK_MI"], "cylp_broken": ["GLPK_MI"], "cbc_fail": ["CBC!fail", "GLPK_MI"]}[mode]
